@@ -11,6 +11,7 @@ def run(ctx, rep):
     limits.rule_regex_timeout_translated(ctx, rep, "C01-R5")
     limits.rule_limit_errors_not_swallowed(ctx, rep, "C01-R6")
     limits.rule_one_deadline(ctx, rep, "C01-R7")
+    limits.rule_deadline_coherent(ctx, rep, "C01-R9")
     termination.rule_native_loops_terminate(ctx, rep, "C01-R8")
     termination.rule_prototype_chains_acyclic(ctx, rep, "C01-R8b")
     rep.undecided += [
